@@ -5,6 +5,8 @@ import Efp.Proofs.ChainTerm
 import Efp.Proofs.Links
 import Efp.Proofs.LinksUpdate
 import Efp.Proofs.EditCycle
+import Efp.Props.C18
+import Efp.Generated.Depends
 /-!
 # C08 — the calculation graph is consistent and complete
 
@@ -244,7 +246,36 @@ example : (match demoLinks with
                  | .error _ => false)
      | .error _ => false) = true := by decide +kernel
 
+/-! ## completeness of the first computation: the declared object-level dependencies cover the recorded reads
+
+When an object enters the model (or a link changes) its calculated attributes are computed by walking
+`modeling_objects_whose_attributes_depend_directly_on_me` from object to object
+(`mod_objs_computation_chain`).  For that walk to reach every attribute that reads a value of the object,
+every *recorded* read `C.a ← D.b` of a calculated `D.b` held by an object of another class must be covered by
+the declared relation: `C` is reachable from `D` through `dependsDirectly`.  `System` is the exception by
+design (`optimize_mod_objs_computation_chain` appends the system at the end of every chain).  Both tables
+are rewritten from `/repo` on every run (reference systems + the system containing every public class). -/
+
+open Efp.Generated in
+def depStep (s : List String) : List String :=
+  (s ++ (dependsDirectly.filter (fun p => s.contains p.1)).map (·.2)).eraseDups
+
+open Efp.Generated in
+/-- classes reachable from `c` through the declared dependencies -/
+def depReach (c : String) : List String := (List.range dependsDirectly.length).foldl (fun s _ => depStep s) [c]
+
+def readDeclared (r : (String × String) × (String × String)) : Bool :=
+  let ((c, _), (d, b)) := r
+  match Efp.Props.C18.attrIndex d b with
+  | none => true                                   -- an input of `D`: propagated through the value graph only
+  | some _ => c == d || c == "System" || (depReach d).contains c
+
+/-- **every recorded cross-object read of a calculated value is covered by the declared dependencies**
+(seed C17-c — a service that no longer lists its jobs — falsifies it) -/
+theorem cross_object_reads_are_declared : Efp.Generated.recordedReads.all readDeclared = true := by decide +kernel
+
 /-! ## non-vacuity -/
+example : (depReach "UsagePattern").contains "Storage" = true := by decide +kernel
 def demoReads : Nat → List Nat
   | 1 => [0]
   | 2 => [1, 0]
